@@ -2,6 +2,7 @@
 package c11
 
 import (
+	"bytes"
 	"errors"
 	"fmt"
 	"io"
@@ -23,6 +24,9 @@ type Case struct {
 	Tuples   [][]int `json:"tuples"` // inputs of SeekCommonAncestor
 	Walks    [][]int `json:"walks"`  // start sets of history walks
 	AllPairs bool    `json:"all_pairs"`
+	// FailRead > 0: during every single query the n-th read of a commit object fails (once); the
+	// query must then report an error or still give the right answer - never a wrong one
+	FailRead int `json:"fail_read,omitempty"`
 }
 
 var sub = evid.Register("ancestry", run)
@@ -49,6 +53,9 @@ func TestPropAncestry(t *testing.T) {
 				w[j] = rapid.IntRange(0, n-1).Draw(t, "start")
 			}
 			c.Walks = append(c.Walks, w)
+		}
+		if rapid.IntRange(0, 3).Draw(t, "faulty") == 0 {
+			c.FailRead = rapid.IntRange(1, 8).Draw(t, "failRead")
 		}
 		sub.Check(t, c)
 	})
@@ -127,6 +134,24 @@ func run(c Case) (o evid.Outcome, err error) {
 	for i, s := range sums {
 		idx[string(s)] = i
 	}
+	// read-fault injection (armed per query)
+	reads, hit, faultsHit := 0, false, 0
+	arm := func() {
+		reads, hit = 0, false
+	}
+	if c.FailRead > 0 {
+		db.BeforeRead = func(key []byte) error {
+			if bytes.HasPrefix(key, []byte("com/")) {
+				reads++
+				if reads == c.FailRead {
+					hit = true
+					faultsHit++
+					return errors.New("injected read error")
+				}
+			}
+			return nil
+		}
+	}
 	merges, inversions := 0, 0
 	for i, nd := range c.DAG.Nodes {
 		if len(nd.Parents) > 1 {
@@ -143,12 +168,16 @@ func run(c Case) (o evid.Outcome, err error) {
 	if c.AllPairs {
 		for a := 0; a < n; a++ {
 			for b := 0; b < n; b++ {
+				arm()
 				got, err := ref.IsAncestorOf(db, sums[a], sums[b])
 				if err != nil {
+					if hit {
+						continue
+					}
 					return o, fmt.Errorf("IsAncestorOf(c%d, c%d): %v", a, b, err)
 				}
 				if want := g.IsAnc(a, b); got != want {
-					return o, fmt.Errorf("IsAncestorOf(c%d, c%d) = %v, graph says %v", a, b, got, want)
+					return o, fmt.Errorf("IsAncestorOf(c%d, c%d) = %v, graph says %v%s", a, b, got, want, faultNote(hit, c.FailRead))
 				}
 			}
 		}
@@ -159,17 +188,26 @@ func run(c Case) (o evid.Outcome, err error) {
 		for _, s := range w {
 			starts = append(starts, sums[s])
 		}
+		arm()
 		q, err := ref.NewCommitsQueue(db, starts)
 		if err != nil {
+			if hit {
+				continue
+			}
 			return o, fmt.Errorf("NewCommitsQueue%v: %v", w, err)
 		}
 		visited := map[int]int{}
+		aborted := false
 		for steps := 0; ; steps++ {
 			sum, _, err := q.PopInsertParents()
 			if errors.Is(err, io.EOF) {
 				break
 			}
 			if err != nil {
+				if hit {
+					aborted = true
+					break
+				}
 				return o, fmt.Errorf("walk from %v: %v", w, err)
 			}
 			i, ok := idx[string(sum)]
@@ -181,10 +219,13 @@ func run(c Case) (o evid.Outcome, err error) {
 				return o, fmt.Errorf("walk from %v does not terminate (%d steps for %d commits)", w, steps, n)
 			}
 		}
+		if aborted {
+			continue
+		}
 		want := g.Anc(w...)
 		for i := range want {
 			if visited[i] != 1 {
-				return o, fmt.Errorf("walk from %v visited ancestor c%d %d times", w, i, visited[i])
+				return o, fmt.Errorf("walk from %v visited ancestor c%d %d times and ended without an error%s", w, i, visited[i], faultNote(hit, c.FailRead))
 			}
 		}
 		for i := range visited {
@@ -209,7 +250,11 @@ func run(c Case) (o evid.Outcome, err error) {
 				}
 			}
 		}
+		arm()
 		base, err := ref.SeekCommonAncestor(db, in...)
+		if err != nil && hit {
+			continue
+		}
 		if len(common) == 0 {
 			if err == nil {
 				return o, fmt.Errorf("SeekCommonAncestor%v = c%d although the commits share no ancestor", tu, idx[string(base)])
@@ -217,7 +262,7 @@ func run(c Case) (o evid.Outcome, err error) {
 			continue
 		}
 		if err != nil {
-			return o, fmt.Errorf("SeekCommonAncestor%v: %v, although common ancestors exist (%d)", tu, err, len(common))
+			return o, fmt.Errorf("SeekCommonAncestor%v: %v, although common ancestors exist (%d)%s", tu, err, len(common), faultNote(hit, c.FailRead))
 		}
 		bi, ok := idx[string(base)]
 		if !ok {
@@ -241,6 +286,10 @@ func run(c Case) (o evid.Outcome, err error) {
 		}
 	}
 	o.NonTrivial = nontrivialTuples > 0 && (merges > 0 || inversions > 0)
+	if c.FailRead > 0 {
+		o.Class("read-fault-family")
+		evid.Count("queries in which the injected read error was hit", faultsHit)
+	}
 	o.Class("nodes=%s", sizeBucket(n))
 	if merges > 0 {
 		o.Class("has-merge")
@@ -249,6 +298,13 @@ func run(c Case) (o evid.Outcome, err error) {
 		o.Class("time-inversion")
 	}
 	return o, nil
+}
+
+func faultNote(hit bool, n int) string {
+	if hit {
+		return fmt.Sprintf(" (commit read #%d of this query failed and the failure was not reported)", n)
+	}
+	return ""
 }
 
 func sizeBucket(n int) string {
